@@ -1,16 +1,12 @@
 // ad-hoc probe (not used by any check)
-use qrlew::data_type::{DataType, function::{self, Function as _, Optional}};
+use qrlew::{ast, relation::{Relation, Variant as _}, sql::{parse, relation::QueryWithRelations}};
+fn tree(r: &Relation, d: usize) { println!("{}{} [{}]", " ".repeat(d * 2), r.name(), match r { Relation::Map(_) => "map", Relation::Reduce(_) => "reduce", Relation::Join(_) => "join", Relation::Table(_) => "table", _ => "other" }); for i in r.inputs() { tree(i, d + 1); } }
 fn main() {
-    let fl = DataType::float_values((0..=10).map(|x| x as f64).collect::<Vec<f64>>());
-    let arg = DataType::structured_from_data_types([fl.clone(), DataType::integer_interval(0, 10)]);
-    let shared = Optional::new(function::minus());
-    let shared_plain = function::minus();
-    for (name, f) in [("fresh-plain", 0), ("shared-plain", 1), ("fresh-optional", 2), ("shared-optional", 3)] {
-        let mut seen: std::collections::BTreeMap<String, usize> = Default::default();
-        for _ in 0..5000 {
-            let r = match f { 0 => function::minus().super_image(&arg), 1 => shared_plain.super_image(&arg), 2 => Optional::new(function::minus()).super_image(&arg), _ => shared.super_image(&arg) };
-            *seen.entry(r.map(|t| t.to_string()).unwrap_or_else(|e| e.to_string())).or_default() += 1;
-        }
-        for (k, v) in &seen { println!("{name}: {v} x {}", &k[..k.len().min(120)]); }
-    }
+    let rels = qvh::s_sqlx::world2();
+    let sql = std::env::args().nth(1).unwrap();
+    let q = parse(&sql).unwrap(); let r1 = Relation::try_from(QueryWithRelations::new(&q, &rels)).unwrap();
+    println!("-- first generation"); tree(&r1, 0);
+    let t1 = ast::Query::from(&r1).to_string();
+    let q2 = parse(&t1).unwrap(); let r4 = Relation::try_from(QueryWithRelations::new(&q2, &rels)).unwrap();
+    println!("-- second generation"); tree(&r4, 0);
 }
